@@ -19,13 +19,13 @@ def renderR (r : R (List Row)) : String :=
   | .panic _ => "panic"
   | .fuel => "out-of-fuel"
 
-/-- `Type::is_valid_value` on the structural type view (Enum values: `unimplemented!`). -/
+/-- `Type::is_valid_value` on the structural type view (Enum values: valid for no type). -/
 def validValue : List Bool → Name → Value → R Bool
   | [], _, _ => .ok false
   | nullable :: rest, base, v =>
     match v with
     | .null => .ok nullable
-    | .enum _ => .panic "is_valid_value: enum unimplemented!"
+    | .enum _ => .ok false
     | .list items =>
       if rest.isEmpty then .ok false
       else
